@@ -1,5 +1,7 @@
 import Rooc.WireModel
 import Rooc.Linearize
+import Rooc.Compile
+import Rooc.Gen.Consts
 namespace Rooc.Drv.C01
 open Rooc Sexp Lin
 
@@ -34,6 +36,13 @@ def handle (α : Type) [Arith α] [Wire α] : List Sexp → Sexp
       | .ok lm => app "ok" [lm.enc]
       | .error e => encErr e
     | _, _, _ => app "err" [.atom "decode"]
+  | [.atom "linearize-full", m, tol] =>
+    match (Model.dec m : Option (Model α)), (decNumS tol : Option α) with
+    | some m, some tol =>
+      match Compile.linearize m tol Gen.boundsMaxSteps with
+      | .ok lm => app "ok" [lm.enc]
+      | .error e => encErr e
+    | _, _ => app "err" [.atom "decode"]
   | _ => app "err" [.atom "bad-request"]
 
 /-- exact oracle: the PROPERTY evaluated on the implementation's own answer. -/
